@@ -56,6 +56,9 @@ def bounds(ctx):
                                          Deltas=[0, 1024], MaxIters=[1], TolExps=[7], AlphaExps=[0], BetaQs=[2], Kicks=[1, 3],
                                          MaxSteps=2 if q else 3, MaxRefusals=2)),
         ("no screening", dict(Adaptives=[True, False], Screenings=[False], Deltas=[0, 1024], MaxSteps=3, MaxRefusals=1)),
+        # adaptive window rule over steps that take several screening iterations (delta once per solve step)
+        ("adaptive window 2 with screening", dict(Adaptives=[True], Screenings=[True], Windows=[2], RetrySet=[0], MulExps=[1],
+                                                  Deltas=[0, 1024, 16384], MaxIters=[1], Kicks=[1, 3], MaxSteps=4, MaxRefusals=0)),
     ]
     return models, canaries, exports
 
@@ -69,6 +72,9 @@ def natural_matrix(ctx):
         dict(dev="bar", screening=True, tol=1e-4, alpha=1.0, beta=1.0, adaptive=False, dt_init=d6, current=4.0, field=0.5,
              solve_time=0.15, k=2),
         dict(dev="film", screening=True, tol=1e-3, alpha=0.3, beta=0.8, adaptive=False, dt_init=d6, field=1.5, solve_time=0.09, k=2),
+        # adaptive + screening, proposal not clipped: the window rule counts solve steps, not screening iterations
+        dict(dev="bar", screening=True, tol=1e-2, alpha=0.5, beta=0.5, dt_init=2.0 ** -8, dt_max=0.25, window=4,
+             current=20.0, field=1.0, solve_time=1.0, k=10),
         # iteration limit hit -> RuntimeError
         dict(dev="bar", screening=True, tol=1e-4, maxiter=2, dt_init=d6, dt_max=0.1, current=4.0, field=0.5, solve_time=0.3, k=3),
         # screening disabled: induced potential identically zero in every frame
